@@ -94,6 +94,11 @@ void sym_out_clear() {
 	g_out.clear();
 	g_outpos = -1;
 }
+void sym_out_truncate(unsigned long n) {
+	if (n < g_out.size())
+		g_out.resize(n);
+	g_outpos = -1;
+}
 void sym_out_read(void* dst, unsigned long pos, unsigned long n) {
 	if (pos + n > g_out.size()) {
 		printf("ASSERT-FAIL harness: sym_out_read out of range\n");
